@@ -43,6 +43,11 @@ def expressions(tier, seed):
             # keyword arguments, typed operands under type-sensitive operators (the same value as int / float / bool in one process)
             "int('11', base=2)", "int('11', 2)", "dict(a=1)", "dict(a=1) == {'a': 1}", "sorted([1, 2], reverse=True)", "sorted([1, 2], reverse=True) == [2, 1]", "sum([1], start=1)", "sum([1], 1)",
             "round(2.567, ndigits=1)", "max([], default=3)", "min([4], default=0)", "str(b'a', encoding='ascii')", "int(x='3') if False else 0", "list(**{})", "dict(**{'a': 1})", "sorted([1, 2], key=abs)",
+            # constant-receiver method calls with keyword arguments (dropping a keyword still leaves a valid call)
+            "'a b c'.split(maxsplit=1)", "'a b c'.split(maxsplit=1) == ['a', 'b c']", "'a b c'.split(sep=' ', maxsplit=1)", "'a\\tb'.expandtabs(tabsize=4)", "'a\\tb'.expandtabs(tabsize=4) == 'a   b'",
+            "(255).to_bytes(2, byteorder='little')", "(255).to_bytes(2, byteorder='little') == b'\\xff\\x00'", "(0).from_bytes(b'\\xff', 'big', signed=True)", "'a\\nb'.splitlines(keepends=True)",
+            "len('a\\nb'.splitlines(keepends=True)[0]) == 2", "'abc'.encode(encoding='ascii')", "b'abc'.decode(encoding='ascii', errors='strict')", "'{x}'.format(x=1)", "'a,b'.rsplit(sep=',', maxsplit=1)",
+            "'a b'.split(maxsplit=0) == ['a b']", "'aXbXc'.replace('X', '-', 1)", "'x'.center(3, '*')", "'%(a)s' % dict(a=1)", "'ab'.startswith('b', 1)",
             "'v%s' % 2", "'v%s' % 2.0", "'%s' % True", "'%s' % 1", "'ab' * 2", "'ab' * 2.0", "'ab' * True", "1 << 4", "1 << 4.0", "6 & 3", "6 & 3.0", "2 ** 10", "2.0 ** 10", "True + True", "1 + 1", "1.0 + 1.0",
             "[0] * 2", "[0] * 2.0", "7 // 2", "7.0 // 2", "7 % 3", "7.0 % 3", "-7 // 2", "divmod(7, 2)", "divmod(7.0, 2)", "1 == 1.0", "1 is 1.0", "hash(1) == hash(1.0)", "str(1)", "str(1.0)", "str(True)",
             "repr(2)", "repr(2.0)", "bool(0.0)", "bool(0)", "int(True)", "int(2.9)", "float(2)", "complex(1)", "abs(-2)", "abs(-2.0)", "round(2.5)", "round(3.5)", "round(2)", "type(1) == type(1.0)"]
